@@ -4,7 +4,7 @@
    specification (Spec/LiftSpec.v); the *_refines theorems say the offsets tables and mask arrays of the
    model of GenomicPositionOffsets compute them. *)
 From VV Require Import Model.Base Model.Pattern Model.Gpo Spec.LiftSpec
-  Proofs.LiftSpecProofs Proofs.ApplyProofs Proofs.GpoRefine Proofs.GpoTop.
+  Proofs.LiftSpecProofs Proofs.ApplyProofs Proofs.GpoRefine Proofs.GpoTop Proofs.GpoNearest.
 
 (* the altered sequence is the reference with every variant spliced in *)
 Theorem C05_apply_variants_is_splice : forall start ref vs,
@@ -57,6 +57,42 @@ Proof. exact deleted_maps_to_none. Qed.
 Theorem C05_inserted_maps_to_none : forall vs q, inserted 0 vs q = true -> a2r vs q = None.
 Proof. exact inserted_maps_to_none. Qed.
 
+(* ... or, on request, to the image of the nearest surviving base on the chosen side (inside the context), if there is one *)
+Theorem C05_surviving_ignores_search : forall g r vs, wf (rs r) (re r) vs -> gpo_for g r vs ->
+  forall p nearest, rs r <= p <= re r -> deleted vs p = false -> ref_to_alt_position g p nearest = Ok (r2a vs p).
+Proof. exact ref_to_alt_surviving. Qed.
+Theorem C05_nearest_before : forall g r vs, wf (rs r) (re r) vs -> gpo_for g r vs ->
+  forall p, rs r <= p <= re r -> deleted vs p = true ->
+  (forall p', nearest_before vs (rs r) p p' -> ref_to_alt_position g p (Some Before) = Ok (r2a vs p')) /\
+  (none_before vs (rs r) p -> ref_to_alt_position g p (Some Before) = Ok None) /\
+  ((exists p', nearest_before vs (rs r) p p') \/ none_before vs (rs r) p).
+Proof. exact ref_to_alt_nearest_before. Qed.
+Theorem C05_nearest_after : forall g r vs, wf (rs r) (re r) vs -> gpo_for g r vs ->
+  forall p, rs r <= p <= re r -> deleted vs p = true ->
+  (forall p', nearest_after vs (re r) p p' -> ref_to_alt_position g p (Some After) = Ok (r2a vs p')) /\
+  (none_after vs (re r) p -> ref_to_alt_position g p (Some After) = Ok None) /\
+  ((exists p', nearest_after vs (re r) p p') \/ none_after vs (re r) p).
+Proof. exact ref_to_alt_nearest_after. Qed.
+
+(* ranges are lifted to the span of their surviving bases (shrink), to nothing when none survives; without shrinking both
+   ends must survive *)
+Theorem C05_range_lift_shrink : forall g r vs, 0 < rs r -> wf (rs r) (re r) vs -> gpo_for g r vs ->
+  forall x, rs r <= rs x -> rs x <= re x -> re x <= re r ->
+  (forall a b, surviving_span vs x a b ->
+     ref_to_alt_range g x true = Ok (Some (mkRange (a + shift vs a) (b + shift vs b)))) /\
+  (all_deleted vs x -> ref_to_alt_range g x true = Ok None) /\
+  ((exists a b, surviving_span vs x a b) \/ all_deleted vs x).
+Proof. exact ref_to_alt_range_shrink. Qed.
+Theorem C05_range_lift_strict : forall g r vs, 0 < rs r -> wf (rs r) (re r) vs -> gpo_for g r vs ->
+  forall x, rs r <= rs x -> rs x <= re x -> re x <= re r ->
+  ref_to_alt_range g x false =
+    match r2a vs (rs x), r2a vs (re x) with
+    | None, _ => Ok None
+    | Some _, None => Err RuntimeError
+    | Some s, Some e => Ok (Some (mkRange s e))
+    end.
+Proof. exact ref_to_alt_range_strict. Qed.
+
 (* a REF-coordinate variant is reported as overlapping a coordinate shift exactly when one of its
    reference bases is deleted or is an insertion point *)
 Theorem C05_ref_var_overlap_iff : forall g r vs, 0 < rs r -> gpo_for g r vs -> forall pos len,
@@ -74,6 +110,25 @@ Example C05_example :
     [Some 10; None; None; Some 13; Some 19; Some 20].
 Proof. vm_compute. repeat split; congruence. Qed.
 
+(* non-vacuity of the search and range theorems: the same variants; [16,19] keeps only base 19, [16,18] is deleted entirely,
+   the nearest surviving base before 17 is 15 *)
+Example C05_range_example :
+  let vs := [mkVS 11 1 1; mkVS 13 0 2; mkVS 16 3 0] in
+  surviving_span vs (mkRange 16 19) 19 19 /\ all_deleted vs (mkRange 16 18) /\ nearest_before vs 10 17 15 /\
+  match from_var_stats vs (mkRange 10 20) with
+  | Ok g => ref_to_alt_range g (mkRange 16 19) true = Ok (Some (mkRange 18 18)) /\
+            ref_to_alt_range g (mkRange 16 18) true = Ok None /\
+            ref_to_alt_position g 17 (Some Before) = Ok (Some 17)
+  | Err _ => False
+  end.
+Proof.
+  cbv zeta. split; [|split; [|split; [|vm_compute; auto]]].
+  - unfold surviving_span. cbn [rs re]. repeat split; try lia; try reflexivity; intros y Hy;
+      assert (y = 16 \/ y = 17 \/ y = 18) as [->|[->| ->]] by lia; reflexivity.
+  - intros y Hy. cbn [rs re] in Hy. assert (y = 16 \/ y = 17 \/ y = 18) as [->|[->| ->]] by lia; reflexivity.
+  - unfold nearest_before. repeat split; try lia. intros x Hx. assert (x = 16) as -> by lia. reflexivity.
+Qed.
+
 Print Assumptions C05_apply_variants_is_splice.
 Print Assumptions C05_alt_length.
 Print Assumptions C05_from_var_stats.
@@ -85,3 +140,8 @@ Print Assumptions C05_a2r_r2a.
 Print Assumptions C05_r2a_monotone.
 Print Assumptions C05_a2r_monotone.
 Print Assumptions C05_ref_var_overlap_iff.
+Print Assumptions C05_surviving_ignores_search.
+Print Assumptions C05_nearest_before.
+Print Assumptions C05_nearest_after.
+Print Assumptions C05_range_lift_shrink.
+Print Assumptions C05_range_lift_strict.
